@@ -32,6 +32,29 @@ def jobs_for(tier, rnd):
     for c in strat:
         jobs.append((gid, G.describe(c, 'text'), TX, {'stratum': 'context'}))
         gid += 1
+    # stratum: binary constructs whose operand is itself a unary construct (an always-succeeding but consuming,
+    # or a bounded, operand changes what the parent's flags must say), again inside every restoring context
+    L3 = [('lit', 'a'), ('rx', '[ab]'), ('ref', 'X')]
+    U = [u for l in L3 for u in G.unaries(l) if G.well_formed(u, G.RULES_NULLABLE)]
+    inner = []
+    for u in U:
+        for l in L3:
+            inner += list(G.binaries(u, l)) + list(G.binaries(l, u))
+    strat3 = []
+    for e in inner:
+        if not G.well_formed(e, G.RULES_NULLABLE):
+            continue
+        strat3.append(e)
+        for K in G.CONTS[:2]:
+            for c in G.contexts(e, K):
+                if G.well_formed(c, G.RULES_NULLABLE):
+                    strat3.append(c)
+    if tier == 'quick':
+        rnd.shuffle(strat3)
+        strat3 = strat3[:4500]
+    for c in strat3:
+        jobs.append((gid, G.describe(c, 'text'), TX, {'stratum': 'context-depth3'}))
+        gid += 1
     return jobs
 
 
